@@ -9,13 +9,69 @@ from vlib.gen import whole_programs, scope_programs
 from vlib.scopelog import Structure
 
 
+_WALL = [10]
+
+
+@st.composite
+def late_spawn_cancel_programs(draw):
+    """The owner of a scope waits for its children; in one time step a child ends, and another child starts a further
+    activity in the scope, cancels it at once (before its first turn) and ends as well - in either order, with further
+    children around: the scope simply ends in that step."""
+    d = draw(st.sampled_from([0, 0.5, 1, 2]))
+    n = draw(st.integers(1, 2))
+    sp = [{'op': 'sleep', 'd': d}] + [{'op': 'instant'} for _ in range(draw(st.integers(0, 1)))]
+    for j in range(n):
+        sp.append({'op': 'spawn_into', 'ref': 'S', 'child': {'name': 'late%d' % j, 'steps': [{'op': 'mark', 'v': 'ran'}, {'op': 'sleep', 'd': 1}]}})
+        if j == 0 or draw(st.booleans()):
+            sp.append({'op': 'cancel', 'ref': 'late%d' % j, 'token': [j]})
+    kids = [{'name': 'elder', 'steps': [{'op': 'sleep', 'd': d}]}, {'name': 'spawner', 'steps': sp}]
+    if draw(st.booleans()):
+        kids.append({'name': 'third', 'steps': [{'op': 'sleep', 'd': draw(st.sampled_from([0, d, d + 1]))}]})
+    kids = [kids[i] for i in draw(st.permutations(list(range(len(kids)))))]
+    body = [{'op': 'sleep', 'd': draw(st.sampled_from([0, d]))}] if draw(st.booleans()) else []
+    return {'start': 0, 'objs': {'flags': 1, 'locks': 1, 'queues': 1},
+            'roots': [{'name': 'r', 'steps': [{'op': 'scope', 'name': 'S', 'catch': True, 'children': kids, 'body': body},
+                                              {'op': 'sleep', 'd': 1}]}]}
+
+
 @st.composite
 def cases(draw, tier):
     # first() over activities that can fail used to be a 5 % side stream (finding D17, open at the time); since the
     # fix it is part of half of the whole-program cases
     side = draw(st.booleans())
     which = draw(st.integers(0, 3))
-    if which == 0:
+    if draw(st.integers(0, 9)) == 0:
+        # the directed families of the until / scope-failure checks (interrupts that overtake each other during clean-up
+        # that takes time, nested blocks fired in one step, an abort replaced by an inner block's interrupt): whatever the
+        # outcome, no internal signal or assertion may come out of them
+        from checks import c05, c07
+        k = draw(st.integers(0, 5))
+        if k >= 4:
+            prog = draw(late_spawn_cancel_programs())
+        elif k == 0:
+            prog = c07.C07.tc_program(draw(c07.timed_cleanup_cases())['tc'])
+        elif k == 1:
+            prog = draw(c07.exit_programs())
+        elif k == 2:
+            prog = draw(c07.date_reuse_programs())
+        else:
+            prog = draw(c05.replaced_abort_programs())['prog']
+        names = []
+
+        def walk(steps):
+            for s_ in steps:
+                if s_.get('op') in ('scope', 'until') and not s_.get('name'):
+                    s_['name'] = 'X%d' % (len(names) + sum(map(len, names)))       # (the signal taps tell blocks by name)
+                    names.append('')
+                for ch in s_.get('children', ()) or ():
+                    names.append(ch['name'])
+                    walk(ch['steps'])
+                walk(s_.get('body', ()) or ())
+                walk(s_.get('final', ()) or ())
+        for r in prog['roots']:
+            walk(r['steps'])
+        c = {'prog': prog, 'targets': [n for n in names if n]}
+    elif which == 0:
         c = draw(scope_programs(tier, fail=4, volatile=3, until=4, late_spawn=3, priv=1, finally_spawn=2,
                                 nocatch=1, uncaught_blocks=3, catch_priv=3))
     else:
@@ -71,6 +127,7 @@ def judge(out, case, it, oc, exc, p, ctx):
         out.fail('livelock', tag + 'runaway', '%r;%s' % (exc, ctx))
     elif oc == 'timeout':
         out.fail('livelock', tag + 'wall_clock', 'no progress within the wall-clock safety net;%s' % ctx)
+        _WALL[0] = 3        # (programs take milliseconds; once a run has hung for 10 s the following ones get less patience)
     elif oc == 'exc':
         d = it.describe(exc)
         if not prog_created(d):
@@ -224,7 +281,7 @@ class C03(Check):
         out = Outcome()
         prog = case['prog']
         mk = lambda: Probe(b_step=3000, b_total=60000)  # noqa
-        it, oc, exc, p = execute(prog, mk(), wall=30)
+        it, oc, exc, p = execute(prog, mk(), wall=_WALL[0])
         out.evals = 1
         judge(out, case, it, oc, exc, p, ' faults=None')
         N = p.k
@@ -235,7 +292,7 @@ class C03(Check):
             if len(plan) >= 2:
                 plan.append(plan[0] + plan[1])
         for faults in plan:
-            it, oc, exc, p = execute(prog, mk(), faults=faults, wall=30)
+            it, oc, exc, p = execute(prog, mk(), faults=faults, wall=_WALL[0])
             out.evals += 1
             judge(out, case, it, oc, exc, p, ' faults=%r' % (faults,))
         out.nontrivial = any(f.startswith('race:') for f in out.features)
